@@ -143,4 +143,33 @@ theorem C01_closed_paid (env : Env) (s s' : State) (c : Call) (r : Response) (d 
     all_goals simp [e1, e2]
   omega
 
+theorem askHeld_eq (d : String) (s : State) (k : String) :
+    askHeld d s k = Book.at? (askOwes d) s.asks k := by
+  unfold askHeld Book.at?; cases s.asks.get? k <;> rfl
+
+theorem bidHeld_eq (d : String) (s : State) (k : String) :
+    bidHeld d s k = Book.at? (bidOwes d) s.bids k := by
+  unfold bidHeld Book.at?; cases s.bids.get? k <;> rfl
+
+/-- C09 (the fee leaves with the fill): on every accepted match, in the bid's quote
+    denomination, what the ask and the bid held before + what the request brought in = what
+    they hold afterwards + what the contract paid out.  The bid holds its unspent quote and its
+    unspent fee; so the fee that leaves it – all that is left when the match closes the bid – is
+    paid out (to the fee account, or back to the owner with a price improvement), never dropped. -/
+theorem C09_fee_leaves (env : Env) (s s' : State) (c : Call) (r : Response)
+    (a b p : String) (sz : Nat) (hm : c.msg = .executeMatch a b p sz)
+    (hs : sane s = true) (hx : ExactStep s c.msg) (hsender : c.sender ≠ env.contract)
+    (hself : NoSelfPay env.contract r.msgs) (h : execute env s c = .ok (s', r)) :
+    C09_feeLeavesOK env.contract s c a b r s' = true := by
+  unfold C09_feeLeavesOK
+  cases hb : loadBid s b with
+  | none => rfl
+  | some bb =>
+    have h1 := C01_order_ledger env s s' c r bb.quote.denom hs hx hsender hself h
+    rw [hm] at h1
+    simp only [namedOwed, namedAsks, namedBids, List.map_cons, List.map_nil, sumNat,
+      List.foldr_cons, List.foldr_nil, Nat.add_zero] at h1
+    simp only [askHeld_eq, bidHeld_eq, beq_iff_eq]
+    omega
+
 end Ats.Proofs
